@@ -557,5 +557,7 @@ def mutate_cond(text, kind, rng):
     if kind == "no-final-newline": return t.rstrip("\n").encode()
     if kind == "trailing-comment": return (t + "# the end").encode()
     if kind == "header-lowercase": return t.replace("Properties", "properties", 1).encode()
+    if kind == "name-without-value": return (t.rstrip("\n") + "\nLonely\n").encode()
+    if kind == "name-without-value-then-comment": return (t.rstrip("\n") + "\nLonely\n# c\n").encode()
     return None
-COND_MUTATIONS = ["spaces-in-header", "crlf", "no-final-newline", "trailing-comment", "header-lowercase"]
+COND_MUTATIONS = ["spaces-in-header", "crlf", "no-final-newline", "trailing-comment", "header-lowercase", "name-without-value", "name-without-value-then-comment"]
